@@ -71,9 +71,13 @@ def agg_task(states):
                 exp = mult[0] * math.log(3.0) - N * 2 * math.log(2.0)
             elif kind == "Elementwise":
                 vals = []
-                for name, mod, fn in (("Exp", NL.Exp(), lambda t: t), ("Tanh", NL.Tanh(), lambda t: torch.log(1 - torch.tanh(t) ** 2)), ("LeakyReLU", NL.LeakyReLU(0.5), lambda t: (t < 0).double() * math.log(0.5)), ("CauchyCDF", NL.CauchyCDF(), lambda t: -math.log(math.pi) - torch.log(1 + t ** 2))):
-                    y, lad = mod(x)
-                    e = fn(x).reshape(B, -1).sum(1)
+                # closed forms that stay accurate far from the origin (log(1 - tanh^2) = 2 (log 2 - |t| - softplus(-2|t|)))
+                xe = x.clone()
+                xe.view(-1)[0] = 25.0
+                xe.view(-1)[-1] = -18.0
+                for name, mod, fn in (("Exp", NL.Exp(), lambda t: t), ("Tanh", NL.Tanh(), lambda t: 2.0 * (math.log(2.0) - t.abs() - torch.nn.functional.softplus(-2.0 * t.abs()))), ("LeakyReLU", NL.LeakyReLU(0.5), lambda t: (t < 0).double() * math.log(0.5)), ("LeakyReLU(4)", NL.LeakyReLU(4.0), lambda t: (t < 0).double() * math.log(4.0)), ("CauchyCDF", NL.CauchyCDF(), lambda t: -math.log(math.pi) - torch.log(1 + t ** 2))):
+                    y, lad = mod(xe)
+                    e = fn(xe).reshape(B, -1).sum(1)
                     if lad.shape != (B,) or not torch.allclose(lad.double(), e, atol=1e-9):
                         out["fails"].append(dict(case, layer=name, clause="aggregation", detail="%s on per-item shape %s: logabsdet %s, sum of the elementwise log-derivatives over all elements %s" % (name, shape, lad.tolist(), e.tolist())))
                 continue
